@@ -125,12 +125,7 @@ func C10(p *core.Program, r *core.Report) {
 		}
 	}
 	// vacuity guards: the analysis must see the known mutators and classify the clone as fresh
-	checkMutates := func(key string, param int, what string) {
-		fn := p.Func(key)
-		if fn == nil {
-			r.Undecided("M0", "anchor "+key, "function not found")
-			return
-		}
+	checkMutatesFn := func(fn *ssa.Function, param int, what string) {
 		found := false
 		for _, ef := range a.Effects(fn) {
 			li := a.Label(ef.Target)
@@ -140,13 +135,23 @@ func C10(p *core.Program, r *core.Report) {
 		}
 		r.Add("M0", "sanity: "+core.ShortKey(fn)+" is known to write its argument #"+fmt.Sprint(param), p.Pos(fn.Pos()), found, what)
 	}
+	checkMutates := func(key string, param int, what string) {
+		fn := p.Func(key)
+		if fn == nil {
+			r.Undecided("M0", "anchor "+key, "function not found")
+			return
+		}
+		checkMutatesFn(fn, param, what)
+	}
 	checkMutates("github.com/go-shiori/dom.SetAttribute", 0, "positive control: attribute store")
 	checkMutates("github.com/go-shiori/dom.DetachChild", 0, "positive control: link stores")
 	checkMutates("github.com/go-shiori/dom.AppendChild", 0, "positive control: through (*html.Node).AppendChild")
 	checkMutates("github.com/go-shiori/dom.AppendChild", 1, "positive control: child is re-parented")
 	checkMutates(core.ModPath+"/internal/domutil.StripAttributes", 0, "positive control: Attr replaced on all descendants")
 	checkMutates(core.ModPath+"/internal/domutil.MakeAllLinksAbsolute", 0, "positive control")
-	checkMutates("(*"+core.ModPath+"/internal/converter.DomConverter).visitElementNodeHandler", 1, "positive control: the converter rewrites the tree it walks")
+	if visit, _ := walkHandlers(p, r, "M0"); visit != nil {
+		checkMutatesFn(p.Original(visit), 1, "positive control: the converter's visit callback rewrites the tree it walks")
+	}
 	if wn := p.Func(core.ModPath + "/internal/domutil.WalkNodes"); wn != nil {
 		r.Add("M0", "sanity: WalkNodes keeps its callbacks symbolic (instantiated per call site)", p.Pos(wn.Pos()), a.DeferredCalls(wn) >= 2, fmt.Sprintf("%d deferred calls", a.DeferredCalls(wn)))
 	}
